@@ -104,12 +104,18 @@ def project(pid, p, fields):
         st.append(s)
     out.append("; ".join(st))
     if "alloc" in fields:
-        out.append("a=[%s]" % p["alloc"])
+        ev = p["alloc"]
+        if pid in NO_DEALLOC_EVENTS:
+            # capacity / alignment properties: which blocks are obtained and resized, with which layout;
+            # how a block is RELEASED (and with which layout) is the allocator property's subject (C03)
+            ev = ",".join(x for x in ev.split(",") if x and not x.startswith("d"))
+        out.append("a=[%s]" % ev)
     if "elems" in fields:
         out.append("e=[%s]" % p["elems"])
     return " | ".join(out)
 
 ALL = {"out", "ret", "len", "cap", "place", "ids", "alloc", "elems"}
+NO_DEALLOC_EVENTS = {"C07", "C08"}
 FIELDS = {
     "C01": {"out", "ret", "len", "ids"},
     "C02": {"out", "ret", "len", "ids", "elems"},
